@@ -242,7 +242,8 @@ def match_known(known, prop, harness, params, v):
 
 
 class Check:
-    def __init__(self, prop, tier, seed, home_faults):
+    def __init__(self, prop, tier, seed, home_faults, label_prefix=None):
+        self.label_prefix = label_prefix
         self.prop = prop
         self.tier = tier
         self.seed = seed
@@ -346,6 +347,8 @@ class Check:
         for (ix, j, v, nth), nat in zip(rt, nats):
             rec = {"harness": j["harness"], "params": j["params"], "kind": v["kind"], "label": v["label"], "loc": v["loc"], "stack": v.get("stack", ""), "inputs": v["inputs"], "obs": v.get("obs", [])[:60],
                    "native": {"sanitizer": nat["sanitizer"], "fails": nat["fails"][:5], "rc": nat["rc"], "san_func": nat["san_func"]}}
+            if v["kind"] == "ASSERT" and self.label_prefix and not v["label"].startswith(self.label_prefix) and v["label"] != "witness":
+                continue            # belongs to a sibling property sharing this harness
             if v["kind"] == "UNINIT-USE":
                 unconfirmed.append(rec)
                 continue
